@@ -446,7 +446,7 @@ func runSched(ic *IC, ex *exec.Exec, m *L3Mock, ops []sOp, thorough bool) {
 	for i := range ops {
 		for j := i; j < len(ops); j++ {
 			n++
-			tag := fmt.Sprintf("r%d", n)
+			tag := "s"
 			thr := [][]sEv{plain(ops[i]), plain(ops[j])}
 			enc := encodeSchedule(c, tag, thr)
 			goal, _ := enc.raceQuery()
@@ -457,7 +457,7 @@ func runSched(ic *IC, ex *exec.Exec, m *L3Mock, ops []sOp, thorough bool) {
 						continue // third thread: one path variant per operation
 					}
 					n++
-					enc := encodeSchedule(c, fmt.Sprintf("r%d", n), [][]sEv{plain(ops[i]), plain(ops[j]), plain(ops[k])})
+					enc := encodeSchedule(c, "s", [][]sEv{plain(ops[i]), plain(ops[j]), plain(ops[k])})
 					goal, _ := enc.raceQuery()
 					check(enc.cons, goal, fmt.Sprintf("C05: no schedule makes conflicting accesses of %s ‖ %s ‖ %s adjacent", ops[i].Name, ops[j].Name, ops[k].Name))
 				}
@@ -503,7 +503,7 @@ func runSched(ic *IC, ex *exec.Exec, m *L3Mock, ops []sOp, thorough bool) {
 				if o2.Name != "(none)" {
 					thr = append(thr, plain(o2))
 				}
-				goal, cons := encodeDeadlock(c, fmt.Sprintf("d%d", n), thr, -1)
+				goal, cons := encodeDeadlock(c, "s", thr, -1)
 				check(cons, goal, fmt.Sprintf("C06: no deadlock: %s whose callback runs %v, concurrently with %s", call.Name, cbName, o2.Name))
 				if o2.Name == "(none)" {
 					continue
@@ -512,7 +512,7 @@ func runSched(ic *IC, ex *exec.Exec, m *L3Mock, ops []sOp, thorough bool) {
 				for idx, e := range t1 {
 					if e.Kind == "CallBegin" {
 						n++
-						goal, cons := encodeDeadlock(c, fmt.Sprintf("b%d", n), thr, idx)
+						goal, cons := encodeDeadlock(c, "s", thr, idx)
 						check(cons, goal, fmt.Sprintf("C06: a call of %s blocked inside its callback does not block %s", call.Name, o2.Name))
 						break
 					}
